@@ -674,7 +674,7 @@ func Parts(mode string) func() []mc.Part {
 		ps = append(ps,
 			mc.ExplorePart("plain-send-disabled", New(Variant{Name: "plain-send-disabled", Mode: mode, BankSend: true}), 5, 7, false, rule),
 			mc.ExplorePart("cross-chain-send-disabled", New(Variant{Name: "cross-chain-send-disabled", Mode: mode, Cross: true, BankSend: true, Only: []string{"in1", "out1"}}), 6, 8, false, rule))
-		// a hundred and twenty contracts due at one height
+		// two hundred and sixty contracts due at one height
 		ps = append(ps, BurstPart(mode))
 		if mode == "C04" {
 			ps = append(ps, GenesisAssertionPart())
@@ -683,6 +683,8 @@ func Parts(mode string) func() []mc.Part {
 			// governance removes an asset from the parameters and lists it again: its supply records must survive
 			ps = append(ps, mc.ExplorePart("cross-chain-relisting", New(Variant{Name: "cross-chain-relisting", Mode: mode, Cross: true, Relist: true}), 5, 6, false, rule))
 		}
-		return ps
+		// the three large explorations run last: on a slow machine the time budget then cuts into them (exit 0,
+		// exhaustive:false), not into the small parts that each cover something nothing else does
+		return append(append([]mc.Part{}, ps[3:]...), ps[:3]...)
 	}
 }
